@@ -17,7 +17,7 @@ def conf_nontrivial(tok, res):
         return res == "err" or len(tok) > 3
     if op == "cf":
         return res.startswith("ok") and len(tok) > 6
-    if op in ("cval", "sval", "svalv", "ccval", "nr", "bweq", "pload", "own"):
+    if op in ("cval", "sval", "svalv", "ccval", "nr", "bweq", "pload", "own", "ty"):
         return True
     return op in ("prstr", "prrt", "tmpl", "port")
 
@@ -26,6 +26,8 @@ def conf_class(r):
     if r.startswith("seq="):
         a, _, b = r[4:].partition(" conc=")
         return "each load its own verdict" if a == b else "verdicts deviate"
+    if r.startswith("acc "):
+        return "accepted" + (", server " + r.split(" srv=")[1].split(" ")[0] if " srv=" in r else "")
     if r.startswith("ok"):
         return "ok"
     if r.startswith("err"):
@@ -58,7 +60,7 @@ def confcmd_class(r):
 PROP = {
         "level": "proof",
         "gens": ["ProxyMsg", "Flags", "TypedConf", "CmdWire"],
-        "extra_targets": ["Frp.Props.C18Cmd"],
+        "extra_targets": ["Frp.Props.C18Cmd", "Frp.Props.C18Type"],
         "theorems": [
             "Frp.C18.tables_ok", "Frp.C18.tables_covered", "Frp.C18.marshal_fields_exact",
             "Frp.C18.recon_shape", "Frp.C18.types_exact", "Frp.C18.complete_get",
@@ -101,6 +103,11 @@ PROP = {
             "Frp.C18.frpc_run_steps_expected", "Frp.C18.frps_flags_reach_run", "Frp.C18.cmdHoldsOn_sound",
             "Frp.C18.model_cmdHoldsOn", "Frp.C18.serverSpec_rej_iff", "Frp.C18.serverSpec_web_port",
             "Frp.C18.clientSpec_rej_of_invalid", "Frp.C18.wire_follows_tls_flag", "Frp.C18.wire_tls_distinct",
+            "Frp.C18.new_by_type_shape", "Frp.C18.proxy_load_iff", "Frp.C18.visitor_load_iff",
+            "Frp.C18.proxy_load_type_exact", "Frp.C18.visitor_load_type_exact", "Frp.C18.accepted_proxy_roundtrip",
+            "Frp.C18.type_sent", "Frp.C18.unlisted_type_refused", "Frp.C18.folding_selection_witness",
+            "Frp.C18.upper_case_refused", "Frp.C18.tyProxyHoldsOn_sound", "Frp.C18.model_tyProxyHoldsOn",
+            "Frp.C18.tyVisitorHoldsOn_sound", "Frp.C18.model_tyVisitorHoldsOn",
         ],
         "engines": [
             {"name": "conf", "quick_n": 12000, "thorough_n": 60000, "thorough_seeds": 5,
@@ -134,7 +141,17 @@ PROP = {
                 "server / client-common definition (auth method, scopes, log level, web server TLS pair present / "
                 "complete / incomplete, web server port, six port fields, heartbeat pair, transport protocol) generated "
                 "independently of each other through memory, the three file formats (LoadServerConfig / LoadClientConfig) "
-                "and argv, judged by the real ValidateServerConfig / ValidateClientCommonConfig. "
+                "and argv, judged by the real ValidateServerConfig / ValidateClientCommonConfig; `ty`: one valid proxy "
+                "(all eight types, every server-relevant field present or absent on its own) or visitor definition whose "
+                "`type` is spelled as documented / in other letter cases / with surrounding or embedded white space and "
+                "invisible characters / with Cyrillic, Greek, full-width look-alikes, long s, combining marks / as a "
+                "neighbouring name (suffixes, separators, names of the other family) / absent / a number, in TOML, YAML, "
+                "JSON (main file or an included one) and the legacy INI format (own parser and type table, judged by the "
+                "predicate only; the documented spelling must be accepted), strict on / off, through the real LoadClientConfig and "
+                "ValidateAllClientConfig; on every ACCEPTED document the predicate tyProxyHoldsOn / tyVisitorHoldsOn is "
+                "evaluated on the implementation's own result: the loaded Type is byte for byte in the regenerated list, "
+                "the typed wrapper and the Go struct agree with it, and the real MarshalToMsg → JSON wire → the real "
+                "NewProxyConfigurerFromMsg succeeds with every server-relevant field equal. "
                 "confcmd engine: cmd/frpc and cmd/frps are BUILT from the tree under check and run as processes: one "
                 "definition as `frpc <type> [visitor] --flags` and as `frpc -c file` (every common flag on each of the "
                 "eight proxy and three visitor sub-commands, then random definitions, all five protocols) against "
@@ -160,7 +177,14 @@ PROP = {
             "path, kind, default, ssh-mode guard, persistence; WordSepNormalizeFunc; the Set bodies of the three flag "
             "value types are recognised verbatim) and gen_typedconf.go (visitorConfigTypeMap, the visitor Complete "
             "statements, the statement sequences of Typed{Proxy,Visitor}Config.UnmarshalJSON/MarshalJSON): statement "
-            "shapes listed in the sources, anything else aborts the run as a broken tie",
+            "shapes listed in the sources, anything else aborts the run as a broken tie; round 5: the statement "
+            "sequences of New{Proxy,Visitor}ConfigurerByType (the type map indexed with the argument itself, the argument "
+            "stored in Type) and the json key of {Proxy,Visitor}BaseConfig.Type",
+            "hand-written model Frp/Model/TypeDispatch.lean: an interpreter of the regenerated statements of "
+            "New…ConfigurerByType and Typed…Config.UnmarshalJSON over an abstract document (null / type key absent, a "
+            "string, not a string / body decodes or not); that encoding/json's Decode writes the document's `type` into "
+            "the field tagged with that key is the model's reading of the decoder (tied by the `ty` op); "
+            "Frp.C18.expNewByType",
             "hand-written expectations Frp.C18.expProxyBase/expDomain/expProxyTyped/expVisitor/expClient/expServer "
             "(the documented flags), Frp.C18.flagOfField, Frp.C18.fileDefaults, Frp.C18.expVisitorSteps, "
             "Frp.C18.proxySpec, Frp.C18.expUnmarshal",
@@ -205,6 +229,12 @@ PROP = {
             "(not enumerated); the theorem covers all interleavings of the modelled events, the op samples real ones",
             "`own` hands the configuration to client/proxy.Manager only (visitor.Manager and the server side are C19's)",
             "annotation keys are generated valid only (k8s IsQualifiedName is not modelled)",
+            "`ty`: document keys are written as documented (encoding/json would also match `Type`, `TYPE`; duplicate keys "
+            "are not generated); the legacy INI format has its own type table (pkg/config/legacy), which is not modelled: "
+            "there the op only evaluates the predicate on accepted documents and demands that the documented spelling is "
+            "accepted; an INI section without `type` (documented default tcp) loads with an empty Type — the case the "
+            "round-trip theorem excludes by hypothesis, predicate n/a; visitors have no server-side reconstruction, only "
+            "the type clauses are evaluated for them",
             "running commands: log_max_days, dns_server, vhost_http_timeout and the visitor's own flags beyond the bind "
             "address are given but have no observable in a short run (they are covered by the in-process flag ops); "
             "TLS inside kcp / quic is not looked into; ValidateClientCommonConfig's feature-gate and include-directory "
@@ -239,6 +269,12 @@ META = {
                 "document has an unknown key at some level; the negation is proved for a decode outside the mutex. "
                 "Complete applied to a completed proxy definition (any user), or to a completed visitor definition "
                 "without serverUser, changes no field; with serverUser it does (witness), so only the loader may apply it. "
+                "The loader's type dispatch (regenerated statements of New…ConfigurerByType and of the two UnmarshalJSON, "
+                "interpreted) accepts an element exactly when its `type` is byte for byte in the regenerated list; then the "
+                "configurer's own Type (which the decoder overwrites with the spelling as written), the wrapper's Type and "
+                "the selected struct agree, and for every configuration record carrying that Type the server round trip "
+                "is the identity on the server-relevant fields; a Type outside the list is refused by the server, and a "
+                "selection that folds the spelling first provably accepts `TCP` and breaks all three (witness). "
                 "Server and client-common validation are exactly the conjunction of their blocks; the web server (frps "
                 "dashboard, frpc admin API) is accepted iff its TLS pair block and its port block both are, so an "
                 "accepted port is in 0..65535 with or without a webServer.tls section. Every `frpc <type>` / `<type> "
